@@ -8,6 +8,11 @@ def files():
     return fs
 
 
+def minimised():
+    """inputs that exposed a failure before (seeded changes, earlier findings): every tier runs them first"""
+    return sorted(glob.glob(os.path.join(vlib.VERIF, "corpus_min", "*.vhd")))
+
+
 def read_lines(path):
     with open(path, encoding="utf-8", errors="surrogateescape") as f:
         return f.read().split("\n")
